@@ -152,6 +152,23 @@ def same_outcome(a, b):
     return all(abs(a[3][k] - b[3][k]) <= 1e-6 * (1 + abs(b[3][k])) for k in b[3])
 
 
+KNOWN_ATTRS = {"name", "_objective", "_sense", "_constraints", "_variables", "_solver_cache", "_lp_cache", "_is_linear_cache"}
+
+
+def hidden_state(P):
+    """Any attribute of the Problem the abstraction does not know about (a new cache, a memo) is part of the
+    state: simple values by value, everything else by presence - so that new hidden state can never be merged away."""
+    out = []
+    for k, v in sorted(vars(P).items()):
+        if k in KNOWN_ATTRS:
+            continue
+        out.append((k, repr(v) if isinstance(v, (type(None), bool, int, float, str)) else "<%s>" % type(v).__name__))
+    sc = P._solver_cache
+    if isinstance(sc, dict):
+        out.append(("solver_cache_keys", tuple(sorted(sc))))
+    return tuple(out)
+
+
 class Driver:
     def __init__(self, menu, max_cons=2):
         self.menu = menu
@@ -256,7 +273,7 @@ class Driver:
             final["_solver_cache"] = (tags["_solver_cache"][:3], repr(P._solver_cache.get("bounds")))
         if P._lp_cache is not None:
             final["_lp_cache"] = (tags["_lp_cache"][:3], repr(P._lp_cache.bounds))
-        key = (model_key(m), tuple(sorted((k, repr(v)) for k, v in final.items())))
+        key = (model_key(m), tuple(sorted((k, repr(v)) for k, v in final.items())), hidden_state(P))
         return key, m, fails
 
     @staticmethod
